@@ -284,6 +284,7 @@ impl<'a> Builder<'a> {
                     RouteKind::Broadcast
                 }
             }
+            Combine::Join(_, JoinAlgo::KeyedAfterAgg, _) if left => return,
             Combine::Join(_, _, k) => RouteKind::Group((*k).max(1)),
         };
         self.routes.push((tap, kind));
@@ -343,6 +344,12 @@ impl<'a> Builder<'a> {
                     (JoinAlgo::Keyed, JoinKind::Outer) | (JoinAlgo::Keyed, JoinKind::Left) => {
                         erase(l.group_by(k1).join_outer(r.group_by(k2)).unkey().map(outer))
                     }
+                    (JoinAlgo::KeyedAfterAgg, _) => erase(
+                        l.group_by_count(k1)
+                            .join(r.group_by(k2))
+                            .unkey()
+                            .map(|(_, (c, r)): (i64, (usize, Rec))| rec_of(mix_pair(Some(c as i64), Some(r.v)))),
+                    ),
                     (JoinAlgo::Keyed, JoinKind::Inner) => {
                         erase(l.group_by(k1).join(r.group_by(k2)).unkey().map(inner))
                     }
